@@ -105,7 +105,7 @@ def run_instance(args):
             'witnesses': witnesses, 'cex': cex, 'unknown': unknown,
             'stats': {k: (round(v, 3) if isinstance(v, float) else v) for k, v in eng.stats.items()},
             'functions': sorted(eng.functions), 'samples': eng.path_records[:2],
-            'nvars': len(core.VARS.names),
+            'nvars': len(core.VARS.names), 'smt_samples': eng.smt_samples,
         })
     except BaseException as e:      # noqa
         out['status'] = 'error'
@@ -168,6 +168,11 @@ def main(argv=None):
     opts = {'branch_ms': 8000 if tier == 'quick' else 30000, 'ob_ms': 20000 if tier == 'quick' else 90000,
             'time_scale': 1 if tier == 'quick' else 3}
     opts.update(getattr(mod, 'OPTS', {}).get(tier, {}))
+    from . import selfcheck
+    sc = selfcheck.run(seed)
+    if sc['problems']:
+        print('[%s] ENCODING SELF-CHECK FAILED: %s' % (pid, sc['problems'][:3]))
+        return 2
     results = []
     extra = getattr(mod, 'extra_checks', None)
     ctx = mp.get_context('fork')
@@ -242,10 +247,19 @@ def main(argv=None):
     incon += [r for r in extra_res if r['status'] == 'inconclusive']
     for key, why in nonrepro:
         print('NON-REPRODUCING counterexample %s: %s' % (key, str(why)[:300]))
+    # ---- solver diff (thorough): sampled nonlinear obligation queries re-decided by cvc5
+    sc['cvc5'] = None
+    if tier == 'thorough':
+        samples = [x for r in results for x in (r.get('smt_samples') or [])]
+        random.Random(seed).shuffle(samples)
+        sc['cvc5'] = selfcheck.cvc5_diff(samples[:12])
+        if sc['cvc5']['disagree']:
+            print('[%s] SOLVER DISAGREEMENT z3 vs cvc5: %s' % (pid, sc['cvc5']['details'][:3]))
+            incon.append({'name': 'cvc5-diff', 'status': 'inconclusive', 'why': sc['cvc5']['details'][:3]})
     # ---- evidence
     wall = time.time() - t0
     if not a.no_evidence and not a.only:
-        write_evidence(pid, tier, seed, mod, results, extra_res, violations, known_hits, nonrepro, incon, wall, opts)
+        write_evidence(pid, tier, seed, mod, results, extra_res, violations, known_hits, nonrepro, incon, wall, opts, sc)
     ok = [r for r in results if r['status'] == 'ok']
     print('[%s] tier=%s instances=%d ok=%d cex=%d inconclusive=%d paths=%d obligations=%d discharged=%d wall=%.1fs' % (
         pid, tier, len(results), len(ok), sum(1 for r in results if r['status'] == 'cex'), len(incon),
@@ -260,7 +274,7 @@ def main(argv=None):
     return 0
 
 
-def write_evidence(pid, tier, seed, mod, results, extra_res, violations, known_hits, nonrepro, incon, wall, opts):
+def write_evidence(pid, tier, seed, mod, results, extra_res, violations, known_hits, nonrepro, incon, wall, opts, sc=None):
     funcs = sorted(set(f for r in results for f in r.get('functions', [])))
     tot = lambda k: sum(r.get(k, 0) or 0 for r in results)
     st = Counter()
@@ -317,6 +331,7 @@ def write_evidence(pid, tier, seed, mod, results, extra_res, violations, known_h
             'known_findings_hit': sorted(set(k['what'] for _, k, _, _ in known_hits)),
             'non_reproducing_counterexamples': [k for k, _ in nonrepro],
             'inconclusive': [r.get('instance', r.get('name')) for r in incon],
+            'encoding_validation': sc,
             'exhaustive': False,
         },
         'assumptions': list(getattr(mod, 'ASSUMPTIONS', [])) + [
